@@ -42,7 +42,9 @@ functions mirroring go1.23 / rare, and `match_eq_spec`, `match_sound`, `match_ba
   regenerated control tree of `OpenFilesToChan`), never more than `--readers` are held, none at the end.
 * `exit_code_precedence` – over the regenerated if-chain of `DetermineErrorState`.
 * `gunzip_fallback`, `gunzip_decodes` – `-z` on non-gzip content delivers it from its first byte.
-* `code_shape` – the regenerated control skeletons equal the ones the model mirrors.
+* `code_shape` – the regenerated control skeletons equal the ones the model mirrors; `expand_matches_source`,
+  `expand_tree_matches_source`, `walkRoot_matches_source`, `isDir_matches_source`, `open_matches_source` – the bodies of
+  `GlobExpand`, `walkRoot`, `isDir`, `openFileToReader` regenerated as FUNCTIONS equal the hand model for all inputs.
 
 Part 3 (end of the file; round 2): read faults – `read_fault_counted` (a failing `Read` is counted exactly once whatever
 comes with it), `errors_counted_before_close` (pipeline LTS with the error counter: all errors are counted before the
@@ -464,6 +466,91 @@ files, symbolic links, directories), path look-up follows path_resolution(7), an
 (`Rare/Model/C06Glob.lean`); `treeFs root` is the `FsOracle` they compute. -/
 
 open Rare.C06.Glob Rare.C06.Spec
+
+/-! # Tie to the source, function level: `GlobExpand`, `walkRoot`, `isDir`, `openFileToReader`
+
+`code_shape` compares statement texts.  Here the translator (harness/extract/c06fn.go) regenerates the four bodies as Lean
+FUNCTIONS over oracle parameters (`os.Stat`, `filepath.Walk`, `filepath.Glob`, `os.Open`, `gzip.NewReader`) and the hand model is
+proved equal to them for ALL inputs: a changed condition, a swapped branch, a dropped `Seek`, a send of the wrong variable in
+/repo changes the regenerated function and breaks one of these theorems. -/
+
+/-- `walkRoot` of the code = `Glob.walkRoot` of the model, on every byte string (`os.IsPathSeparator` = `/`) -/
+theorem walkRoot_matches_source (p : Bytes) : Gen.C06.walkRootFn (· == 47) 47 p = Glob.walkRoot p := by
+  unfold Gen.C06.walkRootFn Glob.walkRoot
+  cases p with
+  | nil => simp
+  | cons a l =>
+    have : (a :: l).getLast? = some ((a :: l).getLastD 0) := by
+      rw [List.getLastD_eq_getLast?]
+      cases h : (a :: l).getLast? with
+      | none => simp at h
+      | some x => rfl
+    rw [this]
+    by_cases h : (a :: l).getLastD 0 = 47 <;> simp
+
+/-- `isDir` of the code (`os.Stat` succeeds and reports a directory; `os.Lstat` is not used) = `Glob.isDir` over a tree -/
+theorem isDir_matches_source (root : Node) (p : Bytes) :
+    Gen.C06.isDirFn (fun q => (stat root q).map fun n => match n with | .dir _ => true | _ => false)
+      (fun q => (lstat root q).map fun n => match n with | .dir _ => true | _ => false) p = Glob.isDir root p := by
+  unfold Gen.C06.isDirFn Glob.isDir
+  cases h : stat root p with
+  | none => simp [h]
+  | some n => cases n <;> simp [h]
+
+def pathErrorMsg : String := "Path error: %v; Reading %s as a plain path"
+
+/-- **One iteration of `GlobExpand`'s loop, regenerated from /repo, is `expandArg`** – for every file-system oracle, flag and
+    argument: the same names are sent in the same order (the walk's non-directories under `-R` for a directory; else the glob
+    matches; else – no match or a bad pattern – the argument itself), and "Path error" is logged exactly for a bad pattern. -/
+theorem expand_matches_source (fs : FsOracle) (recursive : Bool) (p : Path) :
+    Gen.C06.globExpandFn fs.isDir id (fun q => (fs.walk q).map fun x => (x, false))
+        (fun q => match fs.glob q with | .badPattern => none | .found l => some l) recursive p
+      = (expandArg fs recursive p, if expandArgBad fs recursive p then [pathErrorMsg] else []) := by
+  unfold Gen.C06.globExpandFn expandArg expandArgBad
+  by_cases h : (recursive && fs.isDir p) = true
+  · simp [h, List.filter_map, Function.comp_def]
+  · simp only [h, Bool.false_eq_true, if_false]
+    cases fs.glob p with
+    | badPattern => simp [pathErrorMsg]
+    | found l => by_cases hl : l.length > 0 <;> simp [hl]
+
+/-- … and over a directory tree, with the regenerated `isDir` and `walkRoot` plugged in, it is `expandArg (treeFs root)`:
+    the function all glob / walk theorems of this file are about. -/
+theorem expand_tree_matches_source (root : Node) (recursive : Bool) (p : Path) :
+    Gen.C06.globExpandFn
+        (Gen.C06.isDirFn (fun q => (stat root q).map fun n => match n with | .dir _ => true | _ => false)
+          (fun q => (lstat root q).map fun n => match n with | .dir _ => true | _ => false))
+        (Gen.C06.walkRootFn (· == 47) 47) (fun q => (Glob.walk root q).map fun x => (x, false))
+        (fun q => match glob root q with | .badPattern => none | .ok l => some l) recursive p
+      = (expandArg (treeFs root) recursive p, if expandArgBad (treeFs root) recursive p then [pathErrorMsg] else []) := by
+  rw [← expand_matches_source]
+  have e1 : Gen.C06.isDirFn (fun q => (stat root q).map fun n => match n with | .dir _ => true | _ => false)
+      (fun q => (lstat root q).map fun n => match n with | .dir _ => true | _ => false) = Glob.isDir root :=
+    funext (isDir_matches_source root)
+  have e2 : Gen.C06.walkRootFn (· == 47) 47 = Glob.walkRoot := funext walkRoot_matches_source
+  rw [e1, e2]
+  unfold Gen.C06.globExpandFn
+  simp only [treeFs, globRes, id]
+  cases glob root p <;> rfl
+
+/-- **`openFileToReader`, regenerated from /repo, is the model's**: open error ⇒ the error; `-z` and a header
+    `gzip.NewReader` accepts ⇒ the gzip reader; `-z` and no such header ⇒ the message is logged and the file is read from
+    offset 0 BECAUSE the regenerated function ran `Seek(0)` (without it: from where the probe left off, `f.gzProbed`);
+    without `-z` ⇒ the file itself. -/
+theorem open_matches_source (f : FileOracle) (gunzip : Bool) :
+    openFileToReader f gunzip = (Gen.C06.openFileToReaderFn f.canOpen f.gzHeaderOk gunzip).map fun st =>
+      (if st.1 then Rd.gz else Rd.plain (if gunzip && !st.2.1 then f.gzProbed else 0), !st.2.2.isEmpty) := by
+  unfold openFileToReader openFileToReaderG Gen.C06.openFileToReaderFn
+  generalize f.gzHeaderOk = h
+  cases f.canOpen <;> cases gunzip <;> cases h <;> simp
+
+/-- the regenerated functions on concrete values: a directory link without trailing slash gets one; a file that is not gzip
+    under `-z` is rewound and the message logged; a bad pattern is sent literally with the log line -/
+example : Gen.C06.walkRootFn (· == 47) 47 [108, 100] = [108, 100, 47] ∧ Gen.C06.walkRootFn (· == 47) 47 [108, 47] = [108, 47] ∧
+    Gen.C06.openFileToReaderFn true false true = some (false, true, ["Gunzip error for file %s: %v; Reading as plain file"]) ∧
+    Gen.C06.openFileToReaderFn true true true = some (true, false, []) ∧ Gen.C06.openFileToReaderFn false true true = none ∧
+    Gen.C06.globExpandFn (fun _ => false) id (fun _ => []) (fun _ : Path => none) true pBad = ([pBad], [pathErrorMsg]) := by
+  decide
 
 /-! ## `filepath.Match` -/
 
